@@ -7,6 +7,30 @@ HERE = os.path.dirname(os.path.dirname(os.path.abspath(__file__)))
 ALL = [f"C{i:02d}" for i in range(1, 21)]
 
 CLAIMED = {
+    "C01": {
+        "level": "proof",
+        "text": "Coq theorems for every grid (any arity and sizes), every permutation and every swept function: "
+                "exactly-once calls, placement of every result, strategy independence, flat and split outputs, and "
+                "equality of the iterative _unflatten with its recursive specification; the hand model of "
+                "combo_runner_core is tied to the code by differential execution under 11 execution strategies "
+                "(including adversarial completion orders and real process pools) with an independent oracle.",
+        "note": "Trusted: Coq kernel; hand transcription Model/Runner.v, Grid.v, Perm.v (validated by "
+                "correspondence, not translated); E1 futures return their own job's value; R1 random.shuffle is a "
+                "permutation (read from CPython per case). No axioms.",
+        "technique": "Coq proof (induction over dimension lists, permutation/sortedness lemmas) + differential correspondence by vm_compute",
+        "design_ref": "DESIGN.md section 4, C01",
+    },
+    "C02": {
+        "level": "proof",
+        "text": "Coq theorems over the cases branch of the combo_runner_core model: calls are exactly the requested "
+                "settings, the grid spans the sorted union of case values, requested slots hold their own result, "
+                "every other slot holds the placeholder, overlap is rejected with no call, placeholder shape; "
+                "differential execution against combo_runner / case_runner on random case sets and result kinds.",
+        "note": "Trusted as C01; value order is the harness's rank map; xarray.full_like placeholder for "
+                "dict/Dataset results is checked by test only. No axioms.",
+        "technique": "Coq proof (lookup/association-list lemmas, sorted-union lemmas) + differential correspondence by vm_compute",
+        "design_ref": "DESIGN.md section 4, C02",
+    },
     "C07": {
         "level": "proof",
         "text": "Coq theorems (unbounded N, batch size, batch count) over a model of choose_batch_settings and the "
